@@ -70,6 +70,120 @@ func EdgeFacts(fn *ssa.Function, atoms ...*Atom) []EdgeFact {
 	return out
 }
 
+// shortCircuit decomposes a boolean VALUE built with && / || (go/ssa lowers these to a
+// phi when the expression is not itself a branch condition, e.g. in `switch { case a &&
+// b: }` or `ok := a || b; if ok`): it returns the operands and whether they are joined by
+// AND (true) or OR (false). ok=false when v is not such a phi.
+func shortCircuit(v ssa.Value) (parts []ssa.Value, and bool, ok bool) {
+	phi, isPhi := Strip(v).(*ssa.Phi)
+	if !isPhi || len(phi.Edges) < 2 {
+		return nil, false, false
+	}
+	nConst, constVal := 0, false
+	for _, e := range phi.Edges {
+		if b, isC := ConstBool(e); isC {
+			if nConst > 0 && b != constVal {
+				return nil, false, false
+			}
+			nConst++
+			constVal = b
+		}
+	}
+	if nConst == 0 || nConst == len(phi.Edges) {
+		return nil, false, false
+	}
+	and = !constVal // constant false edges: a && b ; constant true edges: a || b
+	for i, e := range phi.Edges {
+		pred := phi.Block().Preds[i]
+		if _, isC := ConstBool(e); !isC {
+			parts = append(parts, e)
+			continue
+		}
+		// the operand is the condition on which pred branched to the phi's block
+		iff, isIf := pred.Instrs[len(pred.Instrs)-1].(*ssa.If)
+		if !isIf {
+			return nil, false, false
+		}
+		c := iff.Cond
+		onTrueEdge := pred.Succs[0] == phi.Block()
+		// && : the edge carrying `false` is taken when the operand is false
+		// || : the edge carrying `true`  is taken when the operand is true
+		if and == onTrueEdge {
+			// operand appears negated relative to the branch: wrap by marking with a NOT we cannot build;
+			// give up on unusual shapes
+			return nil, false, false
+		}
+		parts = append(parts, c)
+	}
+	return parts, and, true
+}
+
+// disjFact: taking edge E asserts the DISJUNCTION of the members (one per operand).
+type disjFact struct {
+	E       Edge
+	Members [][]EdgeFact // per operand: the atom facts that operand being true/false gives
+}
+
+// edgeFactsX is EdgeFacts plus the disjunctive facts of short-circuit values.
+func edgeFactsX(fn *ssa.Function, atoms ...*Atom) ([]EdgeFact, []disjFact) {
+	out := EdgeFacts(fn, atoms...)
+	var dis []disjFact
+	for _, b := range fn.Blocks {
+		if len(b.Instrs) == 0 {
+			continue
+		}
+		iff, ok := b.Instrs[len(b.Instrs)-1].(*ssa.If)
+		if !ok {
+			continue
+		}
+		cond, neg := StripNot(iff.Cond)
+		parts, and, ok := shortCircuit(cond)
+		if !ok {
+			continue
+		}
+		// the edge on which ALL operands are known, and the edge that only gives a disjunction
+		allEdge, disEdge := b.Succs[0], b.Succs[1] // AND: true edge = all true; false edge = some false
+		allVal := true
+		if !and {
+			allEdge, disEdge = b.Succs[1], b.Succs[0] // OR: false edge = all false; true edge = some true
+			allVal = false
+		}
+		if neg {
+			allEdge, disEdge = disEdge, allEdge
+		}
+		d := disjFact{E: Edge{b, disEdge}}
+		for _, part := range parts {
+			pc, pneg := StripNot(part)
+			var members []EdgeFact
+			for _, a := range atoms {
+				onT, onF := a.Match(pc)
+				if pneg {
+					onT, onF = onF, onT
+				}
+				// operand == allVal on allEdge
+				v := onT
+				if !allVal {
+					v = onF
+				}
+				if v != 0 {
+					out = append(out, EdgeFact{Edge{b, allEdge}, a, v > 0})
+				}
+				// operand == !allVal is one disjunct on disEdge
+				w := onF
+				if !allVal {
+					w = onT
+				}
+				if w != 0 {
+					members = append(members, EdgeFact{Edge{b, disEdge}, a, w > 0})
+				}
+			}
+			d.Members = append(d.Members, members)
+		}
+		dis = append(dis, d)
+	}
+	return out, dis
+}
+
 // GateResult is the outcome of a gate check.
 type GateResult struct {
 	OK        bool
@@ -88,7 +202,7 @@ func Gate(fn *ssa.Function, effects []ssa.Instruction, pass ...Lit) GateResult {
 	for i, l := range pass {
 		atoms[i] = l.A
 	}
-	facts := EdgeFacts(fn, atoms...)
+	facts, dis := edgeFactsX(fn, atoms...)
 	cut := map[Edge]bool{}
 	res := GateResult{PerLit: make([]int, len(pass))}
 	for _, f := range facts {
@@ -98,6 +212,34 @@ func Gate(fn *ssa.Function, effects []ssa.Instruction, pass ...Lit) GateResult {
 					res.PassEdges++
 				}
 				cut[f.E] = true
+				res.PerLit[i]++
+			}
+		}
+	}
+	// an edge asserting a disjunction is a pass edge when every disjunct is a pass literal
+	for _, d := range dis {
+		all := len(d.Members) > 0
+		var hit []int
+		for _, ms := range d.Members {
+			okM := false
+			for _, f := range ms {
+				for i, l := range pass {
+					if f.A == l.A && f.Holds == l.Want {
+						okM = true
+						hit = append(hit, i)
+					}
+				}
+			}
+			if !okM {
+				all = false
+			}
+		}
+		if all {
+			if !cut[d.E] {
+				res.PassEdges++
+			}
+			cut[d.E] = true
+			for _, i := range hit {
 				res.PerLit[i]++
 			}
 		}
@@ -409,10 +551,35 @@ func CutEdges(fn *ssa.Function, lits ...Lit) (map[Edge]bool, []int) {
 	}
 	cut := map[Edge]bool{}
 	per := make([]int, len(lits))
-	for _, f := range EdgeFacts(fn, atoms...) {
+	facts, dis := edgeFactsX(fn, atoms...)
+	for _, f := range facts {
 		for i, l := range lits {
 			if f.A == l.A && f.Holds == l.Want {
 				cut[f.E] = true
+				per[i]++
+			}
+		}
+	}
+	for _, d := range dis {
+		all := len(d.Members) > 0
+		var hit []int
+		for _, ms := range d.Members {
+			okM := false
+			for _, f := range ms {
+				for i, l := range lits {
+					if f.A == l.A && f.Holds == l.Want {
+						okM = true
+						hit = append(hit, i)
+					}
+				}
+			}
+			if !okM {
+				all = false
+			}
+		}
+		if all {
+			cut[d.E] = true
+			for _, i := range hit {
 				per[i]++
 			}
 		}
